@@ -655,6 +655,12 @@ func (x *Exec) evalIdent(env *Env, name string) SV {
 			}
 		}
 	}
+	if strings.HasPrefix(name, "last_") {
+		if t, ok := env.state().ghost["last:"+name[5:]]; ok {
+			return SV{T: t, Typ: x.lastTypes[name[5:]]}
+		}
+		specFail("%s: no live local: no call of %s on this path since the last loop cut", name, name[5:])
+	}
 	specFail("unknown identifier %q", name)
 	return SV{}
 }
